@@ -50,7 +50,7 @@ PKG_V1 = {"pkg/__init__.py": '"""Pkg v1."""\nfrom pkg.a import f\nVALUE = 1\n', 
 PKG_V2 = {"pkg/__init__.py": '"""Pkg v2."""\nfrom pkg.a import f\nVALUE = 2\n', "pkg/a.py": 'def f(x):\n    """Doc f."""\n    return x\n'}
 WRITER = "import os\nopen(os.path.join(os.path.dirname(__file__), 'written_at_import.txt'), 'w').close()\n"
 HISTORIES = ["plain", "slash-branch", "detached", "user-worktree", "dirty", "syntax-error-in-old", "absent-in-old", "writes-at-import", "stash"]
-OPS = ["load-static", "load-inspect", "load-extension", "load-unknown-ref", "load-slash-branch", "check"]
+OPS = ["load-static", "load-inspect", "load-extension", "load-unknown-ref", "load-slash-branch", "check", "check-base-ref"]
 
 
 def _git(args, cwd, check=True):
@@ -256,10 +256,22 @@ def operate(griffe, op, repo, inj):
             return ("rc", rc, out.getvalue() + err.getvalue())
         finally:
             os.chdir(cwd)
+    if op == "check-base-ref":
+        # both versions come from temporary checkouts (two worktrees, two temporary branches)
+        cwd = os.getcwd()
+        os.chdir(repo)
+        try:
+            with contextlib.redirect_stdout(io.StringIO()) as out, contextlib.redirect_stderr(io.StringIO()) as err:
+                rc = cli.check("pkg", against="v1", base_ref="main")
+            return ("rc", rc, out.getvalue() + err.getvalue())
+        finally:
+            os.chdir(cwd)
     raise AssertionError(op)
 
 
 def applicable(history, op):
+    if op == "check-base-ref":
+        return history in ("plain", "dirty", "user-worktree")
     if op == "load-slash-branch":
         return history == "slash-branch"
     if op == "load-inspect":
